@@ -40,6 +40,14 @@ KNOWN_FUNC_DROP = "ConditionsToArithm:conditioned-FunctionalAssignment-dropped"
 KNOWN_NONREAL = "get_all_roots:numeric_roots:non-real-roots-dropped"
 
 
+import time as _time
+
+
+def tick(ctx, name, t0):
+    d = ctx.coverage.setdefault("step_seconds", {})
+    d[name] = round(d.get(name, 0) + _time.time() - t0, 1)
+
+
 # ---- settings ------------------------------------------------------------------------------
 def settings_list(quick):
     out = [(c, t, f, "inf") for c, t, f in itertools.product([False, True], repeat=3)]
@@ -211,6 +219,22 @@ def flat_key(flat):
         return None
 
 
+def alpha_dump(dump, prefix):
+    """rename the generated names starting with `prefix` by first occurrence (statement order)"""
+    ren = {}
+    for v in dump_vars(dump):
+        if v.startswith(prefix) and GEN_NAME.match(v) and v not in ren:
+            ren[v] = f"{prefix}{len(ren)}"
+
+    def walk(o):
+        if isinstance(o, dict):
+            return {k: walk(v) for k, v in o.items()}
+        if isinstance(o, list):
+            return [walk(x) for x in o]
+        return ren.get(o, o) if isinstance(o, str) else o
+    return walk(dump)
+
+
 def pipeline_term(r, gr, inst):
     """Coq term: [check_types; check_system; check_init_vals] for Polar's flat program and system"""
     flat = r["flat"]
@@ -238,7 +262,9 @@ def part_programs(ctx):
     # round 1: default analysis (acceptance + inferred types)
     t1 = [{"kind": "analyze", "text": P.prog_text(p), "goals": [gen.goal_text(m) for m in goals], "nvals": N + 1,
            "opts": {}, "timeout": 100, "all_monomials": True, "snapshots": False} for p, goals, _ in cands]
+    _t = _time.time()
     r1 = lib.run_tasks(t1, timeout=100)
+    tick(ctx, "polar-default-round", _t)
     progs = []
     rejected = {}
     for (p, goals, tag), r in zip(cands, r1):
@@ -259,9 +285,14 @@ def part_programs(ctx):
             tasks.append({"kind": "analyze", "text": P.prog_text(q), "goals": [gen.goal_text(m) for m in goals], "nvals": N + 1,
                           "opts": opts_of(s), "timeout": 120, "all_monomials": True, "snapshots": bool(s[0] and s[3] == "inf" and not s[2])})
             meta.append((pi, s))
+    _t = _time.time()
     results = lib.run_tasks(tasks, timeout=120)
+    tick(ctx, "polar-all-settings", _t)
     # oracle on the source programs
+    _t = _time.time()
     exact = oracle.exact_moments(ctx, [(p, goals, N) for p, goals, _, _ in progs], timeout=200)
+    tick(ctx, "oracle", _t)
+    _t = _time.time()
     by_prog = {}
     for (pi, s), t, r in zip(meta, tasks, results):
         by_prog.setdefault(pi, []).append((s, t, r))
@@ -347,8 +378,11 @@ def part_programs(ctx):
             if ref is not None and ok_runs and all(any(v[n] is not None and v[n] != ref[n] for n in range(N + 1)) for *_, v in ok_runs):
                 # every setting differs from the reference semantics: not an option effect (C01's subject)
                 ctx.coverage["goals_where_all_settings_differ_from_reference"] = ctx.coverage.get("goals_where_all_settings_differ_from_reference", 0) + 1
+    tick(ctx, "compare+attribution", _t)
     # (i) kernel validation of every closed form against its own system ...
+    _t = _time.time()
     out = c04.validate_instances(ctx, labelled)
+    tick(ctx, "check_solution", _t)
     stat = {}
     accepted = set()
     for rec in out:
@@ -369,7 +403,9 @@ def part_programs(ctx):
                           + (f": component {mm[1]} gives {mm[2]} at n={mm[0]}, A^n v gives {mm[3]}" if mm else ""), no_input=mm is None)
     # ... and of the system against the flat program (types, one-step exactness, initial values)
     files = [(f"p17_{j}", core.WP_HEADER + f"Eval vm_compute in {term}.\n") for j, (_, term) in enumerate(pipe_cases)]
+    _t = _time.time()
     pouts = lib.coq_run_many(ctx, files, timeout=240)
+    tick(ctx, "check_pipeline", _t)
     pstat = {"pipeline-accepted": 0, "types-rejected": 0, "system-rejected": 0, "init-rejected": 0, "coq-error": 0}
     full = {}
     for j, (lab, _) in enumerate(pipe_cases):
@@ -433,6 +469,7 @@ def part_ties(ctx, progs, by_prog, full):
         t1, rb = runs[(False, True, False, "inf")]
         pa, pb = ra.get("parsed"), rb.get("parsed")
         if pa and pb and "unsupported" not in pa and "unsupported" not in pb:
+            pa, pb = alpha_dump(pa, "_t"), alpha_dump(pb, "_t")     # temporaries of simultaneous assignments share the counter
             try:
                 cs = [v for v in dump_vars(pb) if v.startswith("_c")]
                 cs_c = P.lst(['"%s"' % u for u in cs])
@@ -717,10 +754,21 @@ def run(ctx):
         ctx.violation("proof-broken", {"theorem": "props/C17.v", "log": log[-3000:]}, "props/C17.v no longer checks", no_input=True)
         return
     lib.coq_make(["theories/Search.vo", "theories/OptionsThm.vo"])
+    import time
+    ph = {}
+    t0 = time.time()
     progs, by_prog, full = part_programs(ctx)
+    ph["programs"] = round(time.time() - t0, 1)
+    t0 = time.time()
     part_ties(ctx, progs, by_prog, full)
+    ph["ties"] = round(time.time() - t0, 1)
+    t0 = time.time()
     part_numeric(ctx)
+    ph["numeric"] = round(time.time() - t0, 1)
+    t0 = time.time()
     part_known_and_cli(ctx, progs)
+    ph["known+cli"] = round(time.time() - t0, 1)
+    ctx.coverage["phase_seconds"] = ph
     ctx.coverage["rule"] = ("source programs from harness/gen.py (finite variables, accumulators, guards, nested if/elif/else, 2-4 way choices, draws) "
                             "plus a corpus (three-way choices, self-referencing alternatives, complex / irrational eigenvalues, conditioned draw, guard), "
                             "kept when Polar's default settings accept them; each analysed under "
